@@ -2250,7 +2250,18 @@ where
         let end = self.read.index();
         if should_replace && start < end {
             let slice = self.read.slice_unchecked(start, end);
-            *schema = crate::from_slice(slice)?;
+            *schema = match crate::from_slice(slice) {
+                Ok(value) => value,
+                // the position is relative to the sub-slice, rebase it onto the input
+                Err(err) => {
+                    let index = start + err.offset();
+                    return Err(Error::syntax(
+                        err.error_code(),
+                        self.read.as_u8_slice(),
+                        index,
+                    ));
+                }
+            };
         }
         Ok(())
     }
